@@ -269,16 +269,44 @@ pub fn extended_request(probe: &crate::universe::Probe, rc: &RouterConfig, ext: 
         // IPv4-mapped IPv6 client addresses (what a dual-stack proxy reports)
         3 => r.remote_addr = Some("::ffff:10.0.0.1".parse().unwrap()),
         4 => r.remote_addr = Some("::ffff:8.8.8.8".parse().unwrap()),
+        // instants a fraction of a millisecond / a nanosecond away from the probe's instant (which the probe space
+        // puts ON the boundaries of the date / time windows of the rules): a representation that rounds or
+        // truncates the timestamp moves the request across a boundary
+        5 => r.created_at = r.created_at.map(|t| t - chrono::Duration::microseconds(400)),
+        6 => r.created_at = r.created_at.map(|t| t - chrono::Duration::nanoseconds(1)),
+        7 => r.created_at = r.created_at.map(|t| t + chrono::Duration::microseconds(999_600)),
+        8 => r.created_at = r.created_at.map(|t| t + chrono::Duration::nanoseconds(999_999_999)),
         _ => {}
     }
     r
+}
+
+/// rules whose computed header / body values have blank edges, are empty, or contain control characters: the
+/// action built by the library holds them verbatim, and so must the restored one
+pub fn edge_value_rules() -> Vec<Value> {
+    let mut rules = Vec::new();
+    for (i, v) in [" x", "x ", "\tx", "x\n", " ", "", "a  b", "\u{a0}x\u{a0}", "x\r\n y"].iter().enumerate() {
+        let shape = Shape { cond: if i % 2 == 0 { Cond::None } else { Cond::Include404 }, control: Control::Plain, payload: Payload::Everything };
+        let mut r = shape.to_rule_json("a", 1, "/p");
+        r["target"] = json!(format!("/t{v}"));
+        r["header_filters"] = json!([
+            {"action": "add", "header": "X-Edge", "value": v, "id": null, "target_hash": null},
+            {"action": "override", "header": format!("X-Name{v}"), "value": "n", "id": null, "target_hash": null}
+        ]);
+        r["body_filters"] = json!([
+            {"action": "append_text", "content": v, "id": null, "target_hash": null},
+            {"action": "append_child", "value": v, "inner_value": v, "element_tree": ["html", "body"], "css_selector": null, "id": null, "target_hash": null}
+        ]);
+        rules.push(r);
+    }
+    rules
 }
 
 #[derive(Clone, Debug, serde::Serialize, serde::Deserialize)]
 pub enum Case {
     Shapes(super::c05::Case),
     RuleJson(Value, u16),
-    /// (configuration bits, probe, extension: 0 none, 1 rich, 2 all-None, 3 / 4 IPv4-mapped addresses)
+    /// (configuration bits, probe, extension: 0 none, 1 rich, 2 all-None, 3 / 4 IPv4-mapped addresses, 5-8 instants next to the probe's)
     Request(u32, crate::universe::Probe, u8),
 }
 
@@ -323,7 +351,13 @@ pub fn run(tier: Tier) -> i32 {
     let core = core_shapes();
     let mut lists: Vec<Vec<Shape>> = vec![vec![]];
     lists.extend(super::c05::lists(&all, 1));
-    lists.extend(super::c05::lists(&all, 2));
+    // pairs: quick = every pair with at least one member in the core (every shape still meets every merge
+    // situation the core distinguishes, in both priority positions); thorough = all pairs
+    for l in super::c05::lists(&all, 2) {
+        if tier == Tier::Thorough || core.contains(&l[0]) || core.contains(&l[1]) {
+            lists.push(l);
+        }
+    }
     if tier == Tier::Thorough {
         lists.extend(super::c05::lists(&core, 3));
     }
@@ -351,7 +385,8 @@ pub fn run(tier: Tier) -> i32 {
             }
         }
     });
-    let bf = body_filter_rules();
+    let mut bf = body_filter_rules();
+    bf.extend(edge_value_rules());
     par_range(ctx.threads, bf.len(), |i| {
         let case = Case::RuleJson(bf[i].clone(), 0);
         ctx.eval(1);
@@ -376,7 +411,7 @@ pub fn run(tier: Tier) -> i32 {
         let probes = w.probes(0, &around);
         par_range(ctx.threads, probes.len(), |pi| {
             let probe = w.space.probe(&probes[pi]);
-            let exts: Vec<u8> = if pi % 5 == 0 { vec![0, 1, 2, 3, 4] } else { vec![0] };
+            let exts: Vec<u8> = if pi % 5 == 0 { vec![0, 1, 2, 3, 4, 5, 6, 7, 8] } else { vec![0, 5, 6, 7] };
             for ext in exts {
                 let req = extended_request(&probe, &rc, ext);
                 ctx.eval(1);
